@@ -111,6 +111,11 @@ def expected_by_walk(root, argv):
 
 
 def run(res, tier, br, model_ok=True, search=False):
+    from impl import pipeline as _pl
+    alone_by_ext = {}
+    for ext in (".c", ".h"):
+        _r = _pl("a" + ext, CONTENT)
+        alone_by_ext[ext] = (_r.get("status"), len(_r.get("diags", [])))
     from impl import main_inprocess, run_cli
     rng = random.Random(res.seed + 59)
     n = 400 if (tier == "thorough" or search) else 60
@@ -154,6 +159,14 @@ def run(res, tier, br, model_ok=True, search=False):
                 if got is None:
                     res.report("no-report", f"{args}: no JSON report in {out['stdout'][:120]!r}", rp)
                 else:
+                    # "checked" means analysed: every mention carries the verdict and the diagnostics the file
+                    # gets when it is checked alone (all generated files have the same erroneous content)
+                    for f in doc["files"]:
+                        alone = alone_by_ext.get(f["path"][-2:])
+                        if alone is not None and (f["status"], len(f["errors"])) != alone:
+                            res.report("selection:listed-but-not-analysed", f"{args}: {os.path.basename(f['path'])} is listed with status {f['status']} and "
+                                       f"{len(f['errors'])} diagnostics; checked alone it gives {alone}", rp)
+                            break
                     cg, cw = collections.Counter(got), collections.Counter(want)
                     if cg != cw:
                         extra = sorted((cg - cw).elements())
